@@ -2,14 +2,17 @@
    Only statements, [exact]s and [Print Assumptions] live here.
 
    Models: Model/ParserCore.v (parser.rs, parser/marker.rs), Model/Sink.v
-   (sink.rs).  Spec: Spec/ParseSpec.v.  The grammar functions themselves are
-   modelled only for expressions (Model/ExprGrammar.v, property C24); the
-   termination statement for the whole grammar is therefore [_partial]. *)
+   (sink.rs), Model/Grammar.v (grammar.rs, grammar/stmt.rs, grammar/expr.rs:
+   all 31 grammar functions plus the two entry points, in both variants --
+   before / after the proposed fixes -- selected by [cfg]).
+   Spec: Spec/ParseSpec.v.  Termination of the whole grammar is still
+   [_partial]: see C23_parse_terminates_partial below. *)
 From Coq Require Import List Arith Bool.
 Import ListNotations.
 From Capy Require Import Common.Util Model.ParserCore Model.Sink Spec.ParseSpec
   Proofs.ParserCoreProofs Proofs.ParserSinkProofs
-  Model.ExprGrammar Spec.Precedence Proofs.PrattCorollaries.
+  Model.ExprGrammar Spec.Precedence Proofs.PrattCorollaries
+  Model.Grammar Proofs.GrammarProofs Proofs.GrammarCorollaries.
 
 (* core_well_bracketed: ANY sequence of Parser::start / Marker::complete /
    CompletedMarker::precede / Parser::bump that hits no panic site, started on
@@ -74,8 +77,41 @@ Theorem C23_double_bump_full_refuted : ~ C23_double_bump_full.
 Proof. exact bump_lands_on_token_refuted. Qed.
 Print Assumptions C23_double_bump_full_refuted.
 
-(* Termination, partial: only the expression grammar is transcribed; for every
-   printed expression the linear fuel 6*(n+1) suffices (n = number of tokens). *)
+(* ---- whole grammar (Model/Grammar.v), every input, both variants ------------------ *)
+
+(* every syntax error the grammar records lies within the input *)
+Theorem C23_grammar_errors_in_range : forall c tx repl fuel ts s,
+  parse_top c tx repl fuel ts = Ok s -> toks s = ts /\ errs_ok (total ts) (errs s) = true.
+Proof. exact grammar_errors_in_range. Qed.
+Print Assumptions C23_grammar_errors_in_range.
+
+(* the event list handed to the sink is well bracketed *)
+Theorem C23_grammar_well_bracketed : forall c tx repl fuel ts s l,
+  parse_top c tx repl fuel ts = Ok s -> all_some (evs s) = Some l -> balanced l = true.
+Proof. exact grammar_well_bracketed. Qed.
+Print Assumptions C23_grammar_well_bracketed.
+
+(* no grammar function changes the tokens or moves the cursor backwards, keeps
+   errors in range and keeps the marker invariant (31 functions, one mutual
+   induction): the first half of every progress argument *)
+Theorem C23_grammar_cursor_monotone : forall c tx f, AllM c tx f.
+Proof. exact grammar_cursor_monotone. Qed.
+Print Assumptions C23_grammar_cursor_monotone.
+
+(* the repaired bump (C23-1-fix.diff): "look one token ahead, then bump" lands
+   on the token that was seen -- the statement refuted above for the raw bump *)
+Theorem C23_bump_fixed_lands : forall s k2,
+  at_ahead s 1 (tk_eqb k2) = true -> snd (at_kind (bump_fixed s) k2) = true.
+Proof. exact bump_fixed_lands. Qed.
+Print Assumptions C23_bump_fixed_lands.
+
+(* Termination, PARTIAL: proved only for printed expressions (linear fuel
+   6*(n+1), n = number of tokens).  For the whole grammar the cursor never moves
+   backwards (C23_grammar_cursor_monotone) and, in the repaired variant, the three
+   list loops of C23-2/3/4 leave as soon as an iteration consumed nothing; that
+   every other loop consumes a token per iteration is NOT proved: it is observed
+   (the model, run with the linear fuel 40*(n+2), predicts the real event list,
+   and runs out of fuel exactly where the real parser does not terminate). *)
 Theorem C23_parse_terminates_partial : forall e, wf (CB 0) e = true ->
   parse_bp (6 * (length (print e) + 1)) 0 false (print e) = POk e [].
 Proof. exact roundtrip. Qed.
